@@ -276,6 +276,10 @@ class World(object):
         raise AssertionError('no pending connector')
 
     def _connected(self):
+        # the connection in use: connected and not being closed by the agent (else the newest connected one)
+        for c in reversed(self.reactor.connectors):
+            if c.state == 'connected' and not c.transport.disconnecting:
+                return c
         for c in reversed(self.reactor.connectors):
             if c.state == 'connected':
                 return c
